@@ -414,7 +414,7 @@ class FaultyProblem:
         if ev and ev["name"] == name and self.count[name] == ev["k"]:
             return True
         rg = self.faults.get("region")
-        if rg and rg["name"] == name and x[rg.get("var", 0)] * rg["sign"] > rg["thr"] * rg["sign"]:
+        if rg and rg["name"] in (name, "*") and x[rg.get("var", 0)] * rg["sign"] > rg["thr"] * rg["sign"]:
             return True
         return False
 
@@ -676,8 +676,8 @@ def oracle_C12(case, rec):
                 # exactly: the binary64 sum of the previous model time and the step size used (in every precision mode)
                 if ts[k + 1] != ts[k] + dtk:
                     return "model_times: step %d advanced the model time from %r to %r, the step size used was %r" % (k, ts[k], ts[k + 1], dtk)
-    if rec.get("dist_factor") is not None and rec["dist_factor"] < 1.0:
-        return "dist_factor: %r < 1" % rec["dist_factor"]
+    if rec.get("dist_factor") is not None and not rec["dist_factor"] >= 1.0:
+        return "dist_factor: %r is not >= 1" % rec["dist_factor"]
     return None
 
 
